@@ -134,7 +134,7 @@ fn small_case(i: u64, limit: u64) -> Option<PrecCase> {
     Some(PrecCase { d: D::new(n.to_string(), scale), p, mode })
 }
 
-const TAIL_SHAPES: &[u8] = &[0, 1, 5, 6, 7, 8, 10, 2, 3, 4];
+const TAIL_SHAPES: &[u8] = &[0, 1, 5, 6, 7, 8, 10, 2, 3, 4, 14, 14, 12, 13];
 
 fn prec_strategy(max_len: usize) -> BoxedStrategy<PrecCase> {
     let scale = prop_oneof![
@@ -181,7 +181,7 @@ fn extreme_scale_strategy() -> BoxedStrategy<PrecCase> {
 }
 
 fn sum_strategy(max_len: usize) -> BoxedStrategy<SumCase> {
-    (gen::decimal(max_len, 2000), gen::sdigits(max_len), gen::gap_strategy(700), any::<bool>(), 1u64..=120, 0..7u8, 0..6u8)
+    (gen::decimal(max_len, 2000), gen::sdigits(max_len.max(800)), gen::gap_strategy(700), any::<bool>(), 1u64..=120, 0..7u8, 0..6u8)
         .prop_map(|(a, bint, gap, dir, p, mode, special)| {
             let bscale = if dir { a.scale + gap as i64 } else { a.scale - gap as i64 };
             let b = match special {
@@ -190,6 +190,18 @@ fn sum_strategy(max_len: usize) -> BoxedStrategy<SumCase> {
                     // carry into a new digit: b = 10^k - a style complement on the magnitude
                     let n = a.ndigits();
                     D::new(format!("{}{}", if a.is_neg() { "-" } else { "" }, "9".repeat(n)), a.scale)
+                }
+                2 => {
+                    // borrow cascade: a = +-d * 10^k (one digit followed by zeros), b of the opposite sign lying
+                    // entirely below (or just overlapping) a's last digit: the exact sum is 99..9xxx
+                    let k = a.ndigits().min(130);
+                    let lead = if a.int.trim_start_matches('-').starts_with('1') || p % 2 == 0 { "1" } else { "7" };
+                    let a2 = D::new(format!("{}{}{}", if a.is_neg() { "-" } else { "" }, lead, "0".repeat(k)), a.scale);
+                    let bl = bint.trim_start_matches('-').len() as i64;
+                    let off = (gap % 5) as i64 - 2;
+                    let b2 = D::new(format!("{}{}", if a.is_neg() { "" } else { "-" }, bint.trim_start_matches('-')), a.scale + bl + off);
+                    let p2 = (k as u64 + (gap % 3)).max(1); // k, k+1 or k+2 digits
+                    return SumCase { a: a2, b: b2, p: p2 - 1 + (gap % 2), mode };
                 }
                 _ => D::new(bint, bscale),
             };
